@@ -67,6 +67,7 @@ def member(name, data):
 def build(chk, rng, cenc, denc, extras=(), order=None, ctl_files=None, data_files=None, binary=b"2.0\n"):
     ctext, cfields = control_text(rng)
     cfiles = ctl_files or [(b"./", b""), (b"./md5sums", b"d41d8cd98f00b204e9800998ecf8427e  usr/bin/x\n"), (b"./control", ctext), (b"./conffiles", b"/etc/x\n")]
+    cfiles = [(n, ctext if d is None else d) for n, d in cfiles]      # (content None = this package's own control text)
     if ctl_files is None:
         # the control file's name in the tarball: any spelling that path.Clean takes to "control"
         cname = rng.choice([b"./control", b"./control", b"control", b".//control", b"./sub/../control", b"././control"])
